@@ -18,51 +18,105 @@ def run(res, tier, build_ok):
 
     drv = Driver()
     sets = cmds.opcode_sets()
-    # ---- names / values on the live objects against the oracle
-    names, sas = set(), set()
-    for sn, e in sets.items():
-        for k in e.keys:
-            oc = getattr(e, k)
-            names.add(k)
-            names.add(oc.name)
-            for s in oc.serviceaction.keys:
-                sas.add(s)
-    names = sorted(names)
-    sas = sorted(sas)
-    t10 = dict(zip(names, drv.batch(["t10op %s" % n for n in names])))
-    t10sa = dict(zip(sas, drv.batch(["t10sa %s" % n for n in sas])))
+    def snapshot():
+        return {sn: {k: (getattr(e, k).name, getattr(e, k).value, tuple((x, getattr(getattr(e, k).serviceaction, x)) for x in getattr(e, k).serviceaction.keys))
+                     for k in e.keys} for sn, e in sets.items()}
+
+    def check_tables(tag):
+        # ---- names / values on the live objects against the oracle
+        names, sas = set(), set()
+        for sn, e in sets.items():
+            for k in e.keys:
+                oc = getattr(e, k)
+                names.add(k)
+                names.add(oc.name)
+                for s in oc.serviceaction.keys:
+                    sas.add(s)
+        names = sorted(names)
+        sas = sorted(sas)
+        t10 = dict(zip(names, drv.batch(["t10op %s" % n for n in names])))
+        t10sa = dict(zip(sas, drv.batch(["t10sa %s" % n for n in sas])))
+        nonlocal no_oracle
+        seen = {}
+        for sn, e in sets.items():
+            for k in e.keys:
+                oc = getattr(e, k)
+                res.case(("opcode", sn, k), {"set": sn, "name": k, "value": hex(oc.value), "t10": t10[k]})
+                res.count("opcode entries")
+                for nm, kind in ((k, "key"), (oc.name, "name")):
+                    r = t10[nm]
+                    if r == "none":
+                        no_oracle += 1
+                        continue
+                    if int(r[3:]) != oc.value:
+                        res.violation(tag + "set=%s %s=%s value=%s" % (sn, kind, nm, hex(oc.value)),
+                                      "%s.%s exposes %s under the name %s; T10 assigns %s" % (sn, k, hex(oc.value), nm, hex(int(r[3:]))),
+                                      {"set": sn, "key": k, "name": oc.name, "value": oc.value, "t10": int(r[3:])})
+                if k in seen and seen[k][1] != oc.value:
+                    res.violation(tag + "name=%s differs between %s and %s" % (k, seen[k][0], sn),
+                                  "%s is %s in %s but %s in %s" % (k, hex(seen[k][1]), seen[k][0], hex(oc.value), sn),
+                                  {"name": k, "sets": [seen[k][0], sn], "values": [seen[k][1], oc.value]})
+                seen.setdefault(k, (sn, oc.value))
+                for s in oc.serviceaction.keys:
+                    v = getattr(oc.serviceaction, s)
+                    res.case(("sa", sn, k, s))
+                    res.count("service action entries")
+                    r = t10sa[s]
+                    if r == "none":
+                        no_oracle += 1
+                    elif int(r[3:]) != v:
+                        res.violation(tag + "set=%s opcode=%s sa=%s value=%s" % (sn, k, s, hex(v)),
+                                      "%s.%s service action %s is %s; T10 assigns %s" % (sn, k, s, hex(v), hex(int(r[3:]))),
+                                      {"set": sn, "opcode": k, "service_action": s, "value": v, "t10": int(r[3:])})
     no_oracle = 0
-    seen = {}
-    for sn, e in sets.items():
-        for k in e.keys:
-            oc = getattr(e, k)
-            res.case(("opcode", sn, k), {"set": sn, "name": k, "value": hex(oc.value), "t10": t10[k]})
-            res.count("opcode entries")
-            for nm, kind in ((k, "key"), (oc.name, "name")):
-                r = t10[nm]
-                if r == "none":
-                    no_oracle += 1
-                    continue
-                if int(r[3:]) != oc.value:
-                    res.violation("set=%s %s=%s value=%s" % (sn, kind, nm, hex(oc.value)),
-                                  "%s.%s exposes %s under the name %s; T10 assigns %s" % (sn, k, hex(oc.value), nm, hex(int(r[3:]))),
-                                  {"set": sn, "key": k, "name": oc.name, "value": oc.value, "t10": int(r[3:])})
-            if k in seen and seen[k][1] != oc.value:
-                res.violation("name=%s differs between %s and %s" % (k, seen[k][0], sn),
-                              "%s is %s in %s but %s in %s" % (k, hex(seen[k][1]), seen[k][0], hex(oc.value), sn),
-                              {"name": k, "sets": [seen[k][0], sn], "values": [seen[k][1], oc.value]})
-            seen.setdefault(k, (sn, oc.value))
-            for s in oc.serviceaction.keys:
-                v = getattr(oc.serviceaction, s)
-                res.case(("sa", sn, k, s))
-                res.count("service action entries")
-                r = t10sa[s]
-                if r == "none":
-                    no_oracle += 1
-                elif int(r[3:]) != v:
-                    res.violation("set=%s opcode=%s sa=%s value=%s" % (sn, k, s, hex(v)),
-                                  "%s.%s service action %s is %s; T10 assigns %s" % (sn, k, s, hex(v), hex(int(r[3:]))),
-                                  {"set": sn, "opcode": k, "service_action": s, "value": v, "t10": int(r[3:])})
+    before = snapshot()
+    check_tables("")
+    # ---- the tables are constants: attaching to devices of every type (any INQUIRY contents) and using the
+    #      facade must not change them
+    from pyscsi.pyscsi.scsi import SCSI
+
+    class Dev:
+        def __init__(self, inq):
+            self.inq, self.opcodes, self.devicetype = inq, sets["spc"], None
+
+        def execute(self, cmd, en_raw_sense=False):
+            if cmd.cdb[0] == 0x12:
+                cmd.datain[: len(self.inq)] = self.inq[: len(cmd.datain)]
+
+        def close(self):
+            pass
+    import random
+    rng = random.Random(common.SEED * 7919 + 14)
+    inqs = []
+    for pdt in range(32):
+        base = bytearray(96)
+        base[0], base[4] = pdt, 91
+        inqs.append(bytes(base))
+        for byte in range(1, 8):
+            for bit in range(8):
+                b = bytearray(base)
+                b[byte] |= 1 << bit
+                if byte != 4:
+                    inqs.append(bytes(b))
+        inqs.append(bytes([pdt] + [0xFF] * 95))
+        inqs.append(bytes([pdt | (rng.randrange(8) << 5)]) + bytes(rng.getrandbits(8) for _ in range(95)))
+    for inq in inqs:
+        d = Dev(bytearray(inq))
+        try:
+            s0 = SCSI(d, 512)
+            s0.testunitready()
+            s0.inquiry()
+        except Exception:
+            pass
+        res.case(("attach", inq[:8]), None)
+        res.count("attach histories before re-checking the tables")
+    after = snapshot()
+    if after != before:
+        diff = [(sn, k, before[sn].get(k), after[sn].get(k)) for sn in after for k in set(after[sn]) | set(before[sn]) if before[sn].get(k) != after[sn].get(k)]
+        res.violation("tables changed by use set=%s key=%s" % (diff[0][0], diff[0][1]),
+                      "after attaching to devices the opcode table %s changed: %s was %s, is now %s" % (diff[0][0], diff[0][1], diff[0][2], diff[0][3]),
+                      {"changes": [str(x) for x in diff[:10]]})
+    check_tables("after use: ")
     st = [k for k in ec.SCSI_STATUS.keys]
     for k, r in zip(st, drv.batch(["samstatus %s" % k for k in st])):
         v = getattr(ec.SCSI_STATUS, k)
